@@ -137,4 +137,5 @@ MUTANTS += [
  {"id": "revert-F-S4", "props": ["C07"], "edits": [("pymtl3/dsl/ComponentLevel2.py", "            if blk in m._dsl.update_ff:\n              for x in m._dsl.func_writes[u]:", "            if False:\n              for x in m._dsl.func_writes[u]:")]},
  {"id": "revert-F-S5", "props": ["C01"], "count": 9, "edits": [("pymtl3/dsl/AstHelper.py", "          if   x in self.locals:  pass # assigned in the block itself\n          elif x in self.closure: n = (True, x)\n          elif x in self.globals: n = (False, x)", "          if   x in self.globals: n = (False, x)\n          elif x in self.closure: n = (True, x)")]},
  {"id": "revert-F-S6", "props": ["C02"], "edits": [("pymtl3/dsl/ComponentLevel2.py", "    if '_name_info' in cls.__dict__:", "    if hasattr( cls, '_name_info' ):")]},
+ {"id": "revert-F-D4", "props": ["C09"], "edits": [("pymtl3/dsl/ComponentLevel3.py", "              if u is not v and u is not writer and u in net and u.slice_overlap( v ):", "              if False:")]},
 ]
